@@ -1,0 +1,138 @@
+//go:build verif
+
+package bytex
+
+// Proof harnesses for govc (property C10, see /verif/DESIGN.md). Client code of the codec whose contracts
+// (in zz_contracts_verif.go) state the round trip and the agreement of the two readers; govc verifies these
+// bodies against the contracts of the methods they call. Compiled only with the build tag `verif`; never
+// called.
+
+func verifRoundTripSmall(b *BufferX, v1 bool, v2 byte, v3 uint16, v4 int16) (r1 bool, r2 byte, r3 uint16, r4 int16, ok bool) {
+	b.WriteBool(v1)
+	b.WriteU8(v2)
+	b.WriteU16(v3)
+	b.WriteI16(v4)
+	var e1, e2, e3, e4 error
+	r1, e1 = b.ReadBool()
+	r2, e2 = b.ReadU8()
+	r3, e3 = b.ReadU16()
+	r4, e4 = b.ReadI16()
+	ok = e1 == nil && e2 == nil && e3 == nil && e4 == nil
+	return
+}
+
+func verifRoundTripWide(b *BufferX, v1 uint32, v2 int32, v3 uint64, v4 int64, v5 float64) (r1 uint32, r2 int32, r3 uint64, r4 int64, r5 float64, ok bool) {
+	b.WriteU32(v1)
+	b.WriteI32(v2)
+	b.WriteU64(v3)
+	b.WriteI64(v4)
+	b.WriteF64(v5)
+	var e1, e2, e3, e4, e5 error
+	r1, e1 = b.ReadU32()
+	r2, e2 = b.ReadI32()
+	r3, e3 = b.ReadU64()
+	r4, e4 = b.ReadI64()
+	r5, e5 = b.ReadF64()
+	ok = e1 == nil && e2 == nil && e3 == nil && e4 == nil && e5 == nil
+	return
+}
+
+func verifRoundTripString(b *BufferX, s1 string, tail uint16) (r1 string, r3 uint16, ok bool) {
+	b.WriteString(s1)
+	b.WriteU16(tail)
+	var e1, e3 error
+	r1, e1 = b.ReadString()
+	r3, e3 = b.ReadU16()
+	ok = e1 == nil && e3 == nil
+	return
+}
+
+func verifRoundTripLimitString(b *BufferX, s2 string, limit uint32, tail uint16) (r2 string, r3 uint16, werr error, ok bool) {
+	werr = b.WriteLimitString(limit, s2)
+	if werr != nil {
+		return
+	}
+	b.WriteU16(tail)
+	var e2, e3 error
+	r2, e2 = b.ReadLimitString(limit)
+	r3, e3 = b.ReadU16()
+	ok = e2 == nil && e3 == nil
+	return
+}
+
+func verifRoundTripVarU(b *BufferX, v1 uint64, v3 uint32) (r1 uint64, r3 uint32, ok bool) {
+	b.WriteVarU64(v1)
+	b.WriteVarU32(v3)
+	var e1, e3 error
+	r1, e1 = b.ReadVarU64()
+	r3, e3 = b.ReadVarU32()
+	ok = e1 == nil && e3 == nil
+	return
+}
+
+func verifRoundTripVarI(b *BufferX, v2 int64, v4 int32) (r2 int64, r4 int32, ok bool) {
+	b.WriteVarI64(v2)
+	b.WriteVarI32(v4)
+	var e2, e4 error
+	r2, e2 = b.ReadVarI64()
+	r4, e4 = b.ReadVarI32()
+	ok = e2 == nil && e4 == nil
+	return
+}
+
+func verifRoundTripRaw(b *BufferX, p []byte, tail uint32) (r1 []byte, r2 uint32, ok bool) {
+	b.Write(p)
+	b.WriteU32(tail)
+	var e1, e2 error
+	r1, e1 = b.ZReadN(len(p))
+	r2, e2 = b.ReadU32()
+	ok = e1 == nil && e2 == nil
+	return
+}
+
+func verifRewrite(b *BufferX, v1 uint32, v2 uint32, v3 uint32, w uint32) (r1 uint32, r2 uint32, r3 uint32, ok bool) {
+	b.WriteU32(v1)
+	b.WriteU32(v2)
+	b.WriteU32(v3)
+	b.ReWriteU32(4, w)
+	var e1, e2, e3 error
+	r1, e1 = b.ReadU32()
+	r2, e2 = b.ReadU32()
+	r3, e3 = b.ReadU32()
+	ok = e1 == nil && e2 == nil && e3 == nil
+	return
+}
+
+// the stream reader and the buffer reader decode the same bytes to the same values, and fail together
+func verifAgree(b *BufferX, r *ReaderX, limit uint32) (same bool) {
+	var a1, e1 = b.ReadU16()
+	var c1, f1 = r.ReadU16()
+	if (e1 == nil) != (f1 == nil) || (e1 == nil && a1 != c1) {
+		return false
+	}
+	if e1 != nil {
+		return true
+	}
+	var a2, e2 = b.ReadI64()
+	var c2, f2 = r.ReadI64()
+	if (e2 == nil) != (f2 == nil) || (e2 == nil && a2 != c2) {
+		return false
+	}
+	if e2 != nil {
+		return true
+	}
+	var a3, e3 = b.ReadLimitString(limit)
+	var c3, f3 = r.ReadLimitString(limit)
+	if (e3 == nil) != (f3 == nil) || (e3 == nil && len(a3) != len(c3)) {
+		return false
+	}
+	if e3 != nil {
+		return true
+	}
+	var a4, e4 = b.ReadBool()
+	var c4, f4 = r.ReadBool()
+	if (e4 == nil) != (f4 == nil) || (e4 == nil && a4 != c4) {
+		return false
+	}
+	return true
+}
